@@ -1,11 +1,11 @@
 package c14
 
 import (
-	"strings"
 	"bytes"
 	"encoding/asn1"
 	"encoding/pem"
 	"fmt"
+	"strings"
 
 	"github.com/emmansun/gmsm/cfca"
 	"github.com/emmansun/gmsm/pkcs"
